@@ -104,6 +104,9 @@ def run(ctx, case):
         except Exception:
             return
     elif case["cls"].startswith("text:"):
+        if ctx.cur_k is not None and ctx.cur_k % 3 == 1:
+            from rv.monitors import fileio
+            fileio.check_read_file(ctx, "C01", OsuMap, "\n".join(case["lines"]), read_arg=list(case["lines"]))
         try:
             m = OsuMap.read(list(case["lines"]))
         except Exception:
